@@ -257,11 +257,16 @@ TIE = {
     "C14": "lrtr_convert_short/long, rtr_pdu_convert_header_byte_order, tr_send_all (chunks contiguous and complete for every transport behaviour), the query "
            "senders (record handed to rtr_send_pdu), rtr_send_error_pdu / rtr_send_pdu / rtr_send_error_pdu_from_host (the bytes handed over are exactly the "
            "Error Report: lengths consistent, encapsulated copy byte-exact, no byte from uninitialised memory; never in reply to an Error Report) and the "
-           "echo of rtr_receive_pdu (receive_pdu_echo)",
+           "echo of rtr_receive_pdu (receive_pdu_echo), and the body conversion rtr_pdu_convert_footer_byte_order with the two address helpers of rtrlib/lib inlined "
+           "(for every memory, size, pointer and direction: exactly the 32-bit words the type and version name are swapped in place, defined iff they lie inside "
+           "the object, to-network then to-host is the identity - CLinkFooter)",
     "C17": "rtr_check_interval_range, apply_interval_value, rtr_check_interval_option (with the frame condition on struct rtr_socket), rtr_get/set_interval_mode, "
            "rtr_wait_for_sync (timeout = max 0 (last_update + refresh - now)) and tr_recv_all (the deadline is fixed by the first clock reading, never re-armed)",
     "C05": "the state machine's control skeleton rtr_fsm_start (query choice in CONNECTING / RESET), rtr_stop, the query senders, rtr_handle_cache_response_pdu "
-           "and rtr_sync (request_session_id is cleared only after the payload was stored)",
+           "and rtr_sync (request_session_id is cleared only after the payload was stored), rtr_send_pdu and tr_send_all (a query is handed to the transport "
+           "once, converted, and sent in contiguous chunks - no restart at byte 0)",
+    "C06": "the handlers that write the socket fields deciding between the live tables and the shadow tables of a reload: rtr_handle_error_pdu (a downgrade changes "
+           "the version only), rtr_handle_cache_response_pdu, rtr_sync, rtr_send_reset_query, rtr_set_last_update",
     "C07": "rtr_purge_outdated_records, the CONNECTING iteration of rtr_fsm_start (purge before tr_open), rtr_stop (resets after the join), rtr_set_last_update and rtr_sync",
     "C08": "rtr_fsm_start (one iteration = a readable skeleton specification; the model's fsmStep is that skeleton instantiated with the model's sub-operations; every "
            "iteration in a proper state makes an external call; error states close, change to CONNECTING and sleep retry_interval), rtr_sync and the transport-error "
